@@ -8,11 +8,22 @@ Static obligations (read off the AST, no solver) are created already decided.
 """
 import json
 import os
+import re
 import subprocess
 import time
 import z3
 from concurrent.futures import ProcessPoolExecutor
 import multiprocessing as mp
+
+
+_LET = re.compile(r"[$?]x\d+")
+
+
+def canon_lets(txt):
+    """z3 names the let-bound sub-terms of its SMT-LIB output after internal AST ids, which depend on everything built before in the same process:
+    renamed positionally, so that the text of an obligation (and with a fresh solver context per query, the solver's run) is the same on every run"""
+    names = {}
+    return _LET.sub(lambda m: names.setdefault(m.group(0), f"{m.group(0)[0]}x{len(names)}"), txt)
 
 
 class Obl:
@@ -33,7 +44,7 @@ class Obl:
                 so.add(h)
             if goal is not None:
                 so.add(z3.Not(goal))
-            s.smt2 = so.to_smt2()
+            s.smt2 = canon_lets(so.to_smt2())
             s._show_smt = [(lab, ex.sexpr()) for lab, ex in s.show]
 
     def as_dict(s):
@@ -119,7 +130,7 @@ def _work(job):
     smt2, timeout_ms, show = job
     import z3 as z
     t = time.time()
-    so = z.Solver()
+    so = z.Solver(ctx=z.Context())          # a fresh context per query: nothing of the queries decided earlier by this worker influences the search
     so.set("timeout", int(timeout_ms))
     try:
         so.from_string(smt2)
